@@ -185,13 +185,15 @@ pub struct MonMem<M: GseDecapMemory> {
     pub fired: bool,
     /// buffers consumed by an injected save_frag failure (the memory owns them)
     pub quarantine: Vec<Box<[u8]>>,
-    /// shadow: frag ids for which a context was saved and not yet taken / replaced (by slot knowledge of caller)
+    /// shadow: frag ids for which a context was saved and not yet taken / replaced
     pub saved_ids: Vec<u8>,
+    /// number of slots of the wrapped memory (0 = unknown); used only to retire shadow entries
+    pub slots: usize,
 }
 
 impl<M: GseDecapMemory> MonMem<M> {
     pub fn wrap(inner: M) -> Self {
-        MonMem { inner, log: Vec::new(), log_on: false, ops: 0, fail_at: None, fired: false, quarantine: Vec::new(), saved_ids: Vec::new() }
+        MonMem { inner, log: Vec::new(), log_on: false, ops: 0, fail_at: None, fired: false, quarantine: Vec::new(), saved_ids: Vec::new(), slots: 0 }
     }
     pub fn arm(&mut self, fail_at: Option<(usize, Fault)>) {
         self.ops = 0;
@@ -229,7 +231,9 @@ impl<M: GseDecapMemory> MonMem<M> {
 
 impl<M: GseDecapMemory> GseDecapMemory for MonMem<M> {
     fn new(max_frag_id: usize, max_pdu_size: usize, max_delay: usize, max_pdu_frag: usize) -> Self {
-        MonMem::wrap(M::new(max_frag_id, max_pdu_size, max_delay, max_pdu_frag))
+        let mut m = MonMem::wrap(M::new(max_frag_id, max_pdu_size, max_delay, max_pdu_frag));
+        m.slots = max_frag_id;
+        m
     }
 
     fn provision_storage(&mut self, storage: Box<[u8]>) -> Result<(), DecapMemoryError> {
@@ -264,6 +268,10 @@ impl<M: GseDecapMemory> GseDecapMemory for MonMem<M> {
             return Err(DecapMemoryError::StorageUnderflow);
         }
         let r = self.inner.new_frag(context);
+        if r.is_ok() && self.slots > 0 {
+            let slots = self.slots;
+            self.saved_ids.retain(|x| (*x as usize) % slots != (id as usize) % slots);
+        }
         let l = r.as_ref().ok().map(|b| b.1.len());
         self.ev(MemOp::NewFrag, Some(id), l, r.is_ok(), false);
         r
@@ -275,6 +283,9 @@ impl<M: GseDecapMemory> GseDecapMemory for MonMem<M> {
             return Err(DecapMemoryError::UndefinedId);
         }
         let r = self.inner.take_frag(frag_id);
+        if r.is_ok() {
+            self.saved_ids.retain(|x| *x != frag_id);
+        }
         let l = r.as_ref().ok().map(|b| b.1.len());
         self.ev(MemOp::TakeFrag, Some(frag_id), l, r.is_ok(), false);
         r
@@ -289,6 +300,10 @@ impl<M: GseDecapMemory> GseDecapMemory for MonMem<M> {
             return Err(DecapMemoryError::MemoryCorrupted);
         }
         let r = self.inner.save_frag(context);
+        if r.is_ok() {
+            self.saved_ids.retain(|x| *x != id);
+            self.saved_ids.push(id);
+        }
         self.ev(MemOp::SaveFrag, Some(id), Some(len), r.is_ok(), false);
         r
     }
